@@ -11,7 +11,7 @@
 From Avfs Require Import Base PathModel PathSpec PathProofs PathCleanProofs PathIterProofs.
 From Avfs Require Import MemFS MemFile World Posix WalkBridge WalkSym WalkBudget WalkReadlink StepEq.
 From Avfs Require Import Inv StepInv.
-From Avfs Require Import DacLemmas DacProofs DacSteps DacAdmin DacInv DacExamples.
+From Avfs Require Import DacLemmas DacProofs DacSteps DacAdmin DacInv DacExamples DacAgree DacGetwd DacGetwdEx.
 
 (* ---- C03_class: checkPermission IS acl_permission_check ----------------------------------------------------------- *)
 (* for every mode word (unbounded), owner, group, user and request: owner bits if the user owns the object, else
@@ -184,12 +184,13 @@ Proof. exact dstep_rename_file_new. Qed.
 
 (* Rename of a directory to a name that does not exist: moving it to ANOTHER directory needs write permission on the
    moved directory itself (EACCES; this was the deviation C03-RENAME-DIR-WRITE and a premise [moved_dir_writable]);
-   [not_into_itself]: the two own-subtree tests (string prefix / ancestor walk) both say no - their agreement is not
-   proved here *)
+   [into_itself_agree]: the two own-subtree tests (string prefix / ancestor walk) AGREE - so the refusal EINVAL of a move into
+   the directory's own subtree is covered too, for any user, before any permission test; the agreement itself is
+   [C03_into_itself_agree] on the states of C05 when the moved directory is searchable by the caller *)
 Theorem C03_step_rename_dir_partial : forall (s : fsys) (sv : sview) (wo : list str) (clo : str) (w : list str) (cl : str),
   dac_hyps s sv -> path_ok s sv SlLstat (wo ++ [clo]) -> path_ok s sv SlLstat (w ++ [cl]) ->
   source_is_dir s sv (wo ++ [clo]) -> dest_absent s sv (w ++ [cl]) -> rename_one_error s sv (wo ++ [clo]) (w ++ [cl]) ->
-  not_into_itself s sv (wo ++ [clo]) (w ++ [cl]) ->
+  into_itself_agree s sv (wo ++ [clo]) (w ++ [cl]) ->
   let o := abs_path (wo ++ [clo]) in
   let p := abs_path (w ++ [cl]) in
   (fst (rename s (sv_view sv) o p), proj_res Linux (snd (rename s (sv_view sv) o p))) = go_rename s sv o p.
@@ -430,3 +431,46 @@ Proof. exact DacTree.chown_owner_group. Qed.
 Example C03_example_admin : forall um c, call_view (init_world_linux um) c = 0 ->
   world_roots (init_world_linux um) /\ admin_call (init_world_linux um) c.
 Proof. intros um c E. exact (conj (init_world_roots um) (init_admin_call um c E)). Qed.
+
+(* ---- the two "into itself" tests of Rename agree ---------------------------------------------------------------------------------------- *)
+(* MemFS: "old path + separator is a prefix of the new path" on the two RESOLVED path strings; rename(2): the moved directory is
+   an ancestor of the destination directory.  On a state of C05, for any user who may search the moved directory: equal. *)
+Theorem C03_into_itself_agree : forall (s : fsys) (sv : sview) (wo : list str) (clo : str) (w : list str) (cl : str),
+  dac_hyps s sv -> Inv_heap (f_heap s) ->
+  path_ok s sv SlLstat (wo ++ [clo]) -> path_ok s sv SlLstat (w ++ [cl]) ->
+  source_is_dir s sv (wo ++ [clo]) -> source_searchable s sv (wo ++ [clo]) ->
+  into_itself_agree s sv (wo ++ [clo]) (w ++ [cl]).
+Proof. exact into_itself_agree_inv. Qed.
+
+(* ---- Getwd for any user ------------------------------------------------------------------------------------------------------------------ *)
+(* MemFS walks its working-directory STRING (no final link followed) and tests the search permission of the directory found;
+   os.Getwd ([k_getwd]: its stat(".")) needs search permission on the working-directory NODE and spells its path back.
+   [cwd_walk]: the string is a directory walk (every proper ancestor searchable by the caller, the root included) to the
+   parent of the node, then the node's name.  The node itself may be unsearchable: EACCES on both sides.  Getwd is a clause
+   of [dcovered], hence of C03_history / C03_history_inv. *)
+Theorem C03_step_getwd : forall (s : fsys) (sv : sview) (bs : list str),
+  v_os (sv_view sv) = Linux -> node_is_dir (f_heap s) (v_root (sv_view sv)) = true -> Inv_heap (f_heap s) ->
+  cwd_walk s sv bs -> length bs < SEARCH_FUEL ->
+  proj_res Linux (getwd s (sv_view sv)) = k_getwd s sv.
+Proof. exact dstep_getwd. Qed.
+
+Theorem C03_spec_getwd : forall (phl : bool) (sw : sworld) (vi : nat),
+  spec_step phl sw (CGetwd vi) = (sw, k_getwd (sw_fs sw) (sw_sv sw)).
+Proof. exact spec_getwd. Qed.
+
+(* from the working directory "/h/s" (alice's, 0700, below "/h" alice:1000 0750): Getwd; Stat "/h/f"; Getwd -
+   alice is answered "/h/s", bob (group 1000) is refused EACCES, on both sides, through C03_history_inv *)
+Example C03_example_getwd :
+  (Forall2 obs_sim (snd (impl_run (DacGetwdExamples.w_hs DacTree.alice) DacGetwdExamples.gh))
+                   (snd (spec_run_phl true (DacGetwdExamples.sw_hs DacTree.alice) DacGetwdExamples.gh))
+   /\ match snd (spec_run_phl true (DacGetwdExamples.sw_hs DacTree.alice) DacGetwdExamples.gh) with
+      | [SStr a; SInfo _; SStr b] => a = abs_path [DacTree.n_h; DacTree.n_s] /\ b = abs_path [DacTree.n_h; DacTree.n_s]
+      | _ => False
+      end)
+  /\ (Forall2 obs_sim (snd (impl_run (DacGetwdExamples.w_hs DacTree.bob) DacGetwdExamples.gh))
+                      (snd (spec_run_phl true (DacGetwdExamples.sw_hs DacTree.bob) DacGetwdExamples.gh))
+      /\ match snd (spec_run_phl true (DacGetwdExamples.sw_hs DacTree.bob) DacGetwdExamples.gh) with
+         | [SErr a; SInfo _; SErr b] => a = EACCES /\ b = EACCES
+         | _ => False
+         end).
+Proof. split; [exact DacGetwdExamples.gh_alice|exact DacGetwdExamples.gh_bob]. Qed.
